@@ -38,6 +38,7 @@ type frame struct {
 	curBlk  *ssa.BasicBlock
 	rets    []retPoint
 	npanic  map[ssa.Instruction]string
+	joinedRecs []spawnRec
 	ghostAt map[string]Val
 	iterSt  map[int]*State
 	curIter *State
